@@ -91,6 +91,7 @@ class OutputSuppressionContext:
             self._saved_fds.clear()
             sys.stdout = sys.__stdout__
             sys.stderr = sys.__stderr__
+            sys.stdin = sys.__stdin__
 
     def __enter__(self) -> None:
         if OutputSuppressionContext._null_file.closed:
